@@ -91,10 +91,13 @@ Muted == {IF k \in DOMAIN IOEnv THEN IOEnv[k] ELSE "" :
 (*       an unknown frame is outstanding (unk > 0) or was just reported and nothing arrived since (armed)         *)
 (* cj / rj: a frame that may cancel an arbitration / a RESETTED frame arrived since the last quiescent point      *)
 (* quiet: the implementation reported "nothing more" after a real wait and nothing arrived since                  *)
+(* arb: "run" when an arbitration start was written at a quiescent point (so it is certainly running before any later  *)
+(*       byte), "due" once a RESETTED / ERROR frame arrived while it runs: a cancellation (as_error or START(SYN)) must   *)
+(*       be observed before the next quiescent point; "off" otherwise (result frame, SYN symbols that may time it out)   *)
 (* im / ileft: info automaton, exact only when the request was written at a quiescent point ("idle", "await",      *)
 (*       "run"), otherwise "unspec"                                                                               *)
 MonInit == [pend |-> -1, exp |-> <<>>, nexp |-> <<>>, unk |-> 0, armed |-> FALSE, cj |-> FALSE, rj |-> FALSE,
-            quiet |-> FALSE, im |-> "idle", ileft |-> 0, call |-> <<"none", 0>>, txn |-> 0, dat |-> <<>>,
+            quiet |-> FALSE, arb |-> "off", im |-> "idle", ileft |-> 0, call |-> <<"none", 0>>, txn |-> 0, dat |-> <<>>,
             closed |-> TRUE, closedRs |-> FALSE, bad |-> ""]
 
 Fail(m, sig) == IF m.bad = "" /\ sig \notin Muted THEN [m EXCEPT !.bad = sig] ELSE m
@@ -116,16 +119,17 @@ MonArr(m0, b) ==
   LET it == Item(m0.pend, b)
       m == [m0 EXCEPT !.quiet = FALSE, !.armed = FALSE] IN
   CASE it.k = "pend" -> [m EXCEPT !.pend = b]
-    [] it.k = "sym"  -> LET m1 == [m EXCEPT !.pend = -1, !.exp = Append(@, [s |-> it.s, r |-> it.r])] IN
+    [] it.k = "sym"  -> LET m1 == [m EXCEPT !.pend = -1, !.exp = Append(@, [s |-> it.s, r |-> it.r]),
+                                            !.arb = IF it.r # "none" \/ it.s = SYN THEN "off" ELSE @] IN
                         IF Len(m1.exp) > Cap THEN Fail([m1 EXCEPT !.exp = Tail(@)], LostSig(m1)) ELSE m1
     [] it.k = "ntf"  -> PushN([m EXCEPT !.pend = -1], <<[c |-> it.c, opt |-> FALSE]>>)
-    [] it.k = "err"  -> PushN([m EXCEPT !.pend = -1, !.cj = TRUE], <<[c |-> it.c, opt |-> FALSE]>>)
+    [] it.k = "err"  -> PushN([m EXCEPT !.pend = -1, !.cj = TRUE, !.arb = IF @ = "run" THEN "due" ELSE @], <<[c |-> it.c, opt |-> FALSE]>>)
     [] it.k = "unknown" ->
          \* one notification; a second one for the frame's second byte is tolerated (extent of an unknown frame is open)
          PushN([m EXCEPT !.pend = -1, !.unk = IF @ < Cap THEN @ + 1 ELSE @],
                <<[c |-> it.c, opt |-> FALSE], [c |-> <<"stray2", 0>>, opt |-> TRUE]>>)
     [] it.k = "reset" ->
-         [m EXCEPT !.pend = -1, !.cj = TRUE, !.rj = TRUE, !.im = "unspec"]
+         [m EXCEPT !.pend = -1, !.cj = TRUE, !.rj = TRUE, !.im = "unspec", !.arb = IF @ = "run" THEN "due" ELSE @]
     [] it.k = "info" ->
          CASE m.im = "await" -> IF it.d >= 1 /\ it.d <= 16 THEN [m EXCEPT !.pend = -1, !.im = "run", !.ileft = it.d]
                                 ELSE [m EXCEPT !.pend = -1, !.im = "unspec"]
@@ -149,19 +153,21 @@ Quiesce(m) ==
   IF m.unk > 0 \/ m.armed THEN m
   ELSE LET m1 == IF m.exp # <<>> THEN Fail([m EXCEPT !.exp = <<>>], LostSig(m)) ELSE m
            rq == ReqNtf(m1.nexp)
-           m2 == IF rq # {} THEN Fail(m1, "C14:notification-missing:" \o ClsName(m1.nexp[MinOf(rq)].c)) ELSE m1 IN
-       [m2 EXCEPT !.nexp = <<>>, !.quiet = TRUE, !.cj = FALSE, !.rj = FALSE]
+           m2 == IF rq # {} THEN Fail(m1, "C14:notification-missing:" \o ClsName(m1.nexp[MinOf(rq)].c)) ELSE m1
+           m3 == IF m2.arb = "due" THEN Fail([m2 EXCEPT !.arb = "off"], "C14:arbitration-not-cancelled-by-reset-or-error-frame") ELSE m2 IN
+       [m3 EXCEPT !.nexp = <<>>, !.quiet = TRUE, !.cj = FALSE, !.rj = FALSE]
 
 (* ---- bytes that had arrived are gone because the transport was closed ---- *)
 Resync(m) ==
   LET m1 == IF m.exp # <<>>
             THEN Fail(m, IF m.closedRs THEN "C14:self-reset-close-drops-buffered-bytes" ELSE "C14:close-drops-buffered-bytes")
             ELSE m IN
-  [m1 EXCEPT !.exp = <<>>, !.nexp = <<>>, !.pend = -1, !.unk = 0, !.armed = FALSE, !.quiet = FALSE]
+  [m1 EXCEPT !.exp = <<>>, !.nexp = <<>>, !.pend = -1, !.unk = 0, !.armed = FALSE, !.quiet = FALSE, !.arb = "off"]
 
 MonRv(m, res, sym, as, T) ==
   LET r  == IF as = 6 THEN "won" ELSE IF as = 4 THEN "lost" ELSE "none"
-      m0 == IF as = 2 /\ ~(m.cj \/ res = 3) THEN Fail(m, "C14:arbitration-cancelled-without-cause") ELSE m
+      ma == IF as = 2 THEN [m EXCEPT !.arb = "off"] ELSE m
+      m0 == IF as = 2 /\ ~(m.cj \/ res = 3) THEN Fail(ma, "C14:arbitration-cancelled-without-cause") ELSE ma
       \* the data notification of a delivery is judged only when the delivery itself is the expected one
       clean == m.exp # <<>> /\ Head(m.exp).s = sym /\ Head(m.exp).r = r
       datOk == IF res \in {0, 1} THEN (~clean \/ m0.dat = <<<<sym, IF r = "won" THEN 0 ELSE 1>>>>) ELSE m0.dat = <<>>
@@ -203,8 +209,12 @@ MonTx(m, bytes) ==
       m2 == IF ~isInfo THEN m1
             ELSE IF m1.quiet /\ m1.exp = <<>> /\ m1.pend = -1 THEN [m1 EXCEPT !.im = "await", !.ileft = 0]
             ELSE [m1 EXCEPT !.im = "unspec",
-                            !.nexp = [j \in 1..Len(@) |-> IF @[j].c = <<"info", 0>> THEN [@[j] EXCEPT !.opt = TRUE] ELSE @[j]]] IN
-  [m2 EXCEPT !.txn = IF @ < 2 THEN @ + 1 ELSE @]
+                            !.nexp = [j \in 1..Len(@) |-> IF @[j].c = <<"info", 0>> THEN [@[j] EXCEPT !.opt = TRUE] ELSE @[j]]]
+      isStart == Len(bytes) = 2 /\ IsFirst(bytes[1]) /\ CmdOf(bytes[1]) = REQ_START
+      m3 == IF ~isStart THEN m2
+            ELSE IF bytes # Seq2(REQ_START, SYN) /\ m2.quiet /\ m2.exp = <<>> /\ m2.pend = -1 THEN [m2 EXCEPT !.arb = "run"]
+            ELSE [m2 EXCEPT !.arb = "off"] IN
+  [m3 EXCEPT !.txn = IF @ < 2 THEN @ + 1 ELSE @]
 
 MonRet(m, kind, rc) ==
   LET once == kind \in {"send", "info", "open"} \/ (kind = "start" /\ m.call[2] # SYN)
